@@ -27,6 +27,7 @@ var c09PreconditionAllow = []allowSite{
 // expr = name-insensitive rendering (canon.go): single-assignment locals replaced by their definitions, other locals "_"
 var c09BoundsAllow = []allowSite{
 	{"client/rp.AuthURLHandler", "_[_]", "opts is make(len(urlParam)) and i ranges over urlParam"},
+	{"client/rp.AuthURLHandler", "make([]rp.AuthURLOpt, len(urlParam))[_]", "the same site when the slice is built in a helper of AuthURLHandler: make(len(urlParam)), index from ranging over urlParam"},
 	{"crypto.HashString", "hash.Sum(nil)[, _, :]", "size is hash.Size() or half of it; Sum(nil) returns exactly Size() bytes"},
 	{"http.ConcatenateJSON", "first[(len(first) - 1)]", "first ends in '}' (HasSuffix checked), so len(first) >= 1"},
 	{"http.ConcatenateJSON", "second[1, , :]", "second starts with '{' (HasPrefix checked), so len(second) >= 1"},
